@@ -275,11 +275,31 @@ pub(crate) struct RcBox<T> {
 }
 
 impl<T> RcBox<T> {
+    /// Overwrite the moved-out `value` field with a poison pattern so a stale
+    /// read is detected instead of silently succeeding.
+    #[cfg(cactusref_verif)]
+    #[inline]
+    pub(crate) unsafe fn verif_poison_value(this: *mut Self) {
+        ptr::write_bytes(ptr::addr_of_mut!((*this).value), 0xFF, 1);
+    }
+
+    /// Overwrite the moved-out `links` field with a poison pattern. The
+    /// `RefCell` borrow flag becomes `-1`, so any later borrow panics.
+    #[cfg(cactusref_verif)]
+    #[inline]
+    pub(crate) unsafe fn verif_poison_links(this: *mut Self) {
+        ptr::write_bytes(ptr::addr_of_mut!((*this).links), 0xFF, 1);
+    }
+
     /// # Safety
     ///
     /// Callers must ensure this `RcBox` is not dead.
     #[inline]
     pub(crate) unsafe fn links(&self) -> &RefCell<Links<T>> {
+        #[cfg(cactusref_verif)]
+        if self.is_uninit() {
+            crate::__verif::bump(&crate::__verif::STALE_LINKS);
+        }
         let links = &self.links;
         // SAFETY: because callers have ensured the `RcBox` is not dead, `links`
         // has not yet been deallocated and the `MaybeUninit` is inhabited.
